@@ -251,7 +251,9 @@ Definition run_C09 (c : actcase) : verdict :=
   let corr := act_corr c c09_kinds in
   match model_graph (ac_lib c) with
   | Ok g =>
-      let per := map (eval_act c g) (filter (fun a => existsb (Nat.eqb (st_kind (ao_first a))) c09_kinds) (ac_acts c)) in
+      let acts := filter (fun a => existsb (Nat.eqb (st_kind (ao_first a))) c09_kinds) (ac_acts c) in
+      (* every predicate is also evaluated on what a server with a history answered *)
+      let per := map (eval_act c g) (acts ++ flat_map (hist_variants (ac_seq c)) acts) in
       let '(f, k) := combine_acts per in
       let hits := dedup_N (flat_map snd per) in
       V corr f (match f with [] => hits | _ => k end)
